@@ -521,6 +521,19 @@ func init() {
 					}
 				}
 			}
+			// a bool-only call before the capturing one, patterns with many capture groups nobody refers to
+			for _, g := range []struct{ pat, pad string }{{`(a)(b)(c)(d)(e)(f)`, "abcd"}, {`(\w)(\w)(\w)(\w)(\w)(\w)(\w)(\w)`, "abcdef"}, {`(?:(a)|(b)|(c))*d`, "abcabc"},
+				{`(\w)(\w)(\w)(\w)(\w)(\w)(\w)(\w)(\w)(\w)(\w)(\w)(\w)(\w)(\w)(\w)(\w)(\w)(\w)(\w)(\w)(\w)(\w)(\w)`, "abcdefghijklmnopqrstuv"}} {
+				for _, o := range []int{0, patterns.OptRTL} {
+					pad := g.pad
+					if o != 0 {
+						pad = ""
+					}
+					params := map[string]string{"pattern": g.pat, "options": itoa(o), "copts": "", "n": "2", "lmax": "100000", "ldom": "8,16,17,32,64,100,100000", "l2dom": "129,100001",
+						"key_extra": "boolfirst", "textdom": "a-e", "pad": pad, "lconcrete": "1", "boolfirst": "1"}
+					us = append(us, Unit{ID: fmt.Sprintf("C13/boolfirst/%s/o%d", g.pat, o), Harness: "limit", PathBudget: 60000, StepBudget: 40_000_000, Params: params})
+				}
+			}
 			// growth of the stack past its initial size: a concrete run of 10 / 20 runes in front of two symbolic
 			// ones, the limit anywhere between the initial size and several doublings (so that the last growth
 			// step is clipped to the limit on some paths and is a clean doubling on others)
@@ -763,6 +776,10 @@ func groupPatterns(tier string) []string {
 		`(?n:(a)(?<x>b))(?<x>c)(a)`, `(a)(?n)(b)(?<y>c)(?-n)(a)`, `(?n:(?<y>a)|(b))(c)`, `(?-n:(a))(?<x>b)`, `(?n:(?-n:(a))(b))(c)`} {
 		add(s)
 	}
+	// sparse explicit numbers with gaps below a number that is smaller than the group count
+	add(`(?<2>a+)(?<5>b+)?`)
+	add(`(?<3>a)(?<9>b)?(c)?`)
+	add(`(?<w>a)(?<4>b)?(?<20>c)?(a)?`)
 	// more than nine groups (two-digit references)
 	add(`()()()()()()()()()(a)(b)?`)
 	add(`(?<k>a)()()()()()()()()()(b)?`)
@@ -1127,7 +1144,8 @@ func init() {
 				ps = dedup(append(ps, enumPats("quick", seed)...))
 			}
 			us := stringUnits("C08", "wellformed", ps, cfgs[:4], []string{"s", "b"}, mx, nil, func(i, k int) bool {
-				return tier == "thorough" || k == 0 || (i+seed)%3 == k-1
+				// the hand-written patterns (the first 18) always also run right-to-left
+				return tier == "thorough" || k == 0 || k == 3 && i < 18 || (i+seed)%3 == k-1
 			})
 			// capture stacks with pushes, pops and re-pushes (balancing groups, captures inside loops and
 			// look-behind): the bookkeeping shows only on subjects with several sibling pairs, so these run on
@@ -1182,6 +1200,27 @@ func init() {
 							}
 							us = append(us, Unit{ID: fmt.Sprintf("C09/%s/o%d/sym%d/n%s", p.Text, o, rk, symN), Harness: "replace", PathBudget: 60000,
 								Params: map[string]string{"pattern": p.Text, "options": itoa(o), "copts": "", "n": symN, "rep": "", "repk": itoa(rk), "key_extra": "symrep"}})
+						}
+					}
+				}
+			}
+			// sparse explicit numbers with a gap BELOW a referenced number, and balancing groups whose stack is not
+			// empty at the end of a match (later matches of one call pop, the first does not): subjects of 4-5
+			// symbols over a three-letter alphabet
+			for _, c := range []struct{ pat, al string; reps []string }{
+				{`(?<2>a+)(?<5>b+)?`, "ab ", []string{"<$2>", "${5}|$2", "$+", "$1$2"}},
+				{`(?<3>a)(?<9>b)?(c)?`, "abc", []string{"<$3>", "$9$3", "$1", "$+"}},
+				{`(?<o>a)+(?<-o>b)?`, "ab ", []string{"[${o}]", "$1|$&", "$+"}},
+				{`(?:(?<o>a)|(?<x-o>b))+`, "ab ", []string{"[${o}|${x}]", "$+"}},
+			} {
+				for _, o := range []int{0, patterns.OptRTL} {
+					for _, rep := range c.reps {
+						for _, n := range []int{4, 5} {
+							if n == 5 && tier != "thorough" && o != 0 {
+								continue
+							}
+							us = append(us, Unit{ID: fmt.Sprintf("C09/%s/o%d/%s/a%d", c.pat, o, rep, n), Harness: "replace", PathBudget: 60000,
+								Params: map[string]string{"pattern": c.pat, "options": itoa(o), "copts": "", "n": itoa(n), "rep": rep, "repk": "0", "mode": "s", "alphabet": c.al, "key_extra": "deep/" + rep}})
 						}
 					}
 				}
@@ -1273,6 +1312,14 @@ func init() {
 					}
 					us = append(us, Unit{ID: fmt.Sprintf("C06/%s/n%d", p.Text, n), Pkg: "compat", Harness: "compat", Domain: "full",
 						Params: map[string]string{"pattern": p.Text, "options": "512", "copts": "", "n": itoa(n)}})
+				}
+			}
+			// subjects of 3-4 runes over an alphabet that mixes 1- and 2-byte runes: byte offsets behind
+			// multi-byte runes, raw-string filters that step back over runes of different widths
+			for _, t := range []string{`..x`, `(.)(.)x`, `.{2}x`, `[^a][^b]xy`, `a*`, `(a|é)+x`, `\w+x`, `x$`, `.x.`} {
+				for _, n := range []int{3, 4} {
+					us = append(us, Unit{ID: fmt.Sprintf("C06/%s/r%d", t, n), Pkg: "compat", Harness: "compat", Domain: "full",
+						Params: map[string]string{"pattern": t, "options": "512", "copts": "", "n": itoa(n), "runealphabet": "aéxy", "key_extra": "r"}})
 				}
 			}
 			return us
@@ -1528,6 +1575,15 @@ func init() {
 					}
 					us = append(us, Unit{ID: fmt.Sprintf("C11/%s/%s", p.a, mx), Harness: "conc", PathBudget: 30000,
 						Params: map[string]string{"pattern": p.a, "pattern_b": p.b, "options": "0", "copts": "", "n": itoa(n), "ops": mx, "preempt": itoa(pre), "key_extra": mx, "interp_replay": "1"}})
+				}
+				if pi == 0 {
+					// many capture groups nobody refers to (the bool-only program is much smaller than the full one)
+					// on a text long enough for all of them to capture
+					g24 := strings.Repeat(`(\w)`, 24)
+					for _, mx := range []string{"ms,fs", "fa,rp", "ms,sp"} {
+						us = append(us, Unit{ID: fmt.Sprintf("C11/g24/%s", mx), Harness: "conc", PathBudget: 30000, StepBudget: 30_000_000,
+							Params: map[string]string{"pattern": g24, "pattern_b": p.b, "options": "0", "copts": "", "n": "1", "ops": mx, "preempt": itoa(pre), "text": "abcdefghijklmnopqrstuvwxy", "key_extra": "g24/" + mx, "interp_replay": "1"}})
+					}
 				}
 				// right-to-left programs take their own Replace / Split / find-all code paths (own buffers)
 				for mi, mx := range []string{"rp,ms", "sp,fa", "rp,rq", "fs,rp"} {
